@@ -29,7 +29,9 @@ EXHAUSTIVE = {"quick": False, "thorough": True}
 
 FAULTS = ["refused", "ctimeout", "gaierror", "rtimeout", "rreset", "eof", "garbage", "short_eof", "sreset", "rssl", "tlsfail", "connect_refused"]
 CATEGORY = {"refused": "connect", "ctimeout": "connect", "gaierror": "connect", "rtimeout": "read", "rreset": "read", "eof": "read", "garbage": "read", "short_eof": "read", "sreset": "read", "rssl": "other", "tlsfail": "other", "connect_refused": "other"}
-RESPS = [{"s": 200}, {"s": 500}, {"s": 503}, {"s": 429, "ra": "2"}, {"s": 503, "ra": "7"}, {"s": 413, "ra": "1"}, {"s": 500, "ra": "3"}, {"s": 429, "ra": "0"}, {"s": 404, "ra": "5"}]
+RESPS = [{"s": 200}, {"s": 500}, {"s": 503}, {"s": 429, "ra": "2"}, {"s": 503, "ra": "7"}, {"s": 413, "ra": "1"}, {"s": 500, "ra": "3"}, {"s": 429, "ra": "0"}, {"s": 404, "ra": "5"},
+         # Retry-After as an HTTP-date: 4 s after the reply, and a date that has already passed
+         {"s": 503, "ra": "@date+4"}, {"s": 429, "ra": "@date-30"}]
 OUTCOMES = FAULTS + RESPS
 METHODS = ["GET", "POST", "PUT", "DELETE", "PATCH"]
 IDEMPOTENT = {"HEAD", "GET", "PUT", "DELETE", "OPTIONS", "TRACE"}
@@ -109,7 +111,7 @@ def _validate(case):
         if isinstance(o, str):
             if o not in FAULTS:
                 raise core.InvalidCase
-        elif not (isinstance(o, dict) and o.get("s") in (200, 500, 503, 429, 413, 404) and o.get("ra", "1") in ("0", "1", "2", "3", "5", "7")):
+        elif not (isinstance(o, dict) and o.get("s") in (200, 500, 503, 429, 413, 404) and o.get("ra", "1") in ("0", "1", "2", "3", "5", "7", "@date+4", "@date-30")):
             raise core.InvalidCase
     sp = case.get("retries")
     if not isinstance(sp, dict) or sp.get("t") not in ("none", "false", "int", "retry"):
@@ -252,12 +254,13 @@ def run_case(case) -> list[Failure]:
     # ---- A6 sleeps
     for at, x in clock.sleeps_at:
         ok_backoff = 0 <= x <= eff["bm"]
-        ra_val = None
+        ra_val, ra_date = None, False
         if 1 <= at <= n and atts[at - 1]["outcome"]["o"] == "resp":
             for h in atts[at - 1]["outcome"].get("headers", []):
                 if h[0].lower() == "retry-after":
-                    ra_val = float(h[1])
-        ok_ra = eff["rra"] and ra_val is not None and x == ra_val
+                    ra_val = float(h[1]) if not h[1].startswith("@date") else float(h[1][5:])
+                    ra_date = h[1].startswith("@date")
+        ok_ra = eff["rra"] and ra_val is not None and (x == ra_val if not ra_date else (ra_val > 0 and ra_val - 1 <= x <= ra_val))
         if not (ok_backoff or ok_ra):
             fails.append(Failure("sleep", {**sig0, "ra": ra_val is not None}, f"slept {x} s after attempt {at - 1} (backoff_max {eff['bm']}, Retry-After {ra_val}, respected {eff['rra']}): {brief()}"))
     # ---- A5 the caller's Retry object is never mutated
